@@ -168,6 +168,10 @@ func runC20(c *c20Case) (labels map[string]bool, err error) {
 				for f := 0; f <= op.Files%3; f++ {
 					files[fmt.Sprintf("f%d.yaml", f)] = []byte(fmt.Sprintf("content-%d-%d", i, f))
 				}
+				if op.Files%2 == 1 {
+					// an empty file as io.ReadAll returns it when importing an image: no bytes, but spare capacity
+					files["empty.yaml"] = make([]byte, 0, 512)
+				}
 				res.RawPackage = &packagetypes.RawPackage{Files: files}
 				sources = append(sources, res.RawPackage)
 			}
@@ -220,6 +224,15 @@ func runC20(c *c20Case) (labels map[string]bool, err error) {
 				for a := 0; a < len(pkgs); a++ {
 					for k, v := range pkgs[a].Files {
 						if len(v) == 0 {
+							// empty contents can still share their backing array: an append by one caller then lands in
+							// the memory another caller's append will use
+							if cap(v) > 0 {
+								for b := 0; b < len(pkgs); b++ {
+									if ov, ok := pkgs[b].Files[k]; a != b && ok && cap(ov) > 0 && &ov[:1][0] == &v[:1][0] {
+										return labels, Violf("C20", "shared-backing-array", "step %d: two packages handed out for %s share the (empty, cap %d) backing array of %s", i, img, cap(v), k)
+									}
+								}
+							}
 							continue
 						}
 						old := v[0]
